@@ -16,6 +16,10 @@
 
 namespace verif {
 
+// budget of spurious compare_exchange_weak failures per run (declared in vshim.hpp, used by verif::atomic<T>::cas)
+int g_casfail_left = 0;
+int g_latewake_left = 0;
+
 namespace {
 struct LThread {
     std::thread th;
@@ -537,6 +541,8 @@ void begin(const Config& cfg)
     }
     S.replay_pos = 0;
     S.spurious_left = cfg.spurious_budget;
+    g_casfail_left = cfg.casfail_budget;
+    g_latewake_left = cfg.latewake_budget;
     S.names.clear();
     S.ranges.clear();
     S.autoseq.clear();
